@@ -171,20 +171,23 @@ def rca_case(chunks, d, reduced):
           ctx.require('whitened_matrix_is_average_within_chunk_covariance', ctx.eq(C[a, b], inner[a][b], tol=1e-9))
       ctx.require('components_are_the_inverse_square_root', ctx.cond(np.shape(est.components_) == (d, d)))
     else:
-      ctx.require('fisher_step_call_sites', ctx.cond(len(rec_lstsq.args) == 1 and len(rec_eig.args) == 1 and len(rec_is.args) == 1))
-      (Tc, Ic), kw = rec_lstsq.args[0]
-      # the generalised problem only depends on the two matrices up to positive factors (any normalisation of the covariances keeps
-      # the retained directions): proportionality with a positive factor, entry by entry (cross-multiplied)
-      def proportional(A, B):
-        tr_a = sum(A[a, a] for a in range(d))
-        tr_b = sum(B[a][a] for a in range(d))
-        conds = [ctx.eq(A[a, b] * tr_b, B[a][b] * tr_a, tol=1e-9) for a in range(d) for b in range(d)]
-        # positive factor: the traces (non-negative for covariances) vanish together and have the same sign
-        conds.append(ctx.iff(ctx.gt(tr_a, 0), ctx.gt(tr_b, 0)))
-        conds.append(ctx.ge(tr_a * tr_b, 0, tol=0.0))
-        return ctx.and_(*conds)
-      ctx.require('total_covariance_is_that_of_the_original_chunk_points_up_to_scale', proportional(Tc, total))
-      ctx.require('within_covariance_handed_to_the_generalised_problem_up_to_scale', proportional(Ic, inner))
+      if not (len(rec_lstsq.args) == 1 and len(rec_eig.args) == 1 and len(rec_is.args) == 1):
+        if ctx.symbolic:
+          ctx.mismatch('reduced RCA no longer goes through lstsq / eig / _inv_sqrtm once each: the call-site recorders cannot follow it')
+      else:
+        (Tc, Ic), kw = rec_lstsq.args[0]
+        # the generalised problem only depends on the two matrices up to positive factors (any normalisation of the covariances keeps
+        # the retained directions): proportionality with a positive factor, entry by entry (cross-multiplied)
+        def proportional(A, B):
+          tr_a = sum(A[a, a] for a in range(d))
+          tr_b = sum(B[a][a] for a in range(d))
+          conds = [ctx.eq(A[a, b] * tr_b, B[a][b] * tr_a, tol=1e-9) for a in range(d) for b in range(d)]
+          # positive factor: the traces (non-negative for covariances) vanish together and have the same sign
+          conds.append(ctx.iff(ctx.gt(tr_a, 0), ctx.gt(tr_b, 0)))
+          conds.append(ctx.ge(tr_a * tr_b, 0, tol=0.0))
+          return ctx.and_(*conds)
+        ctx.require('total_covariance_is_that_of_the_original_chunk_points_up_to_scale', proportional(Tc, total))
+        ctx.require('within_covariance_handed_to_the_generalised_problem_up_to_scale', proportional(Ic, inner))
     if not ctx.symbolic:
       ctx.require('components_real_valued', ctx.cond(np.isrealobj(est.components_) and est.components_.shape == ((1 if reduced else d), d)))
       T = est.transform(np.asarray(X, float))
@@ -196,6 +199,21 @@ def rca_case(chunks, d, reduced):
         inn += Tc_.T @ Tc_
       inn /= N
       ctx.require('within_chunk_covariance_of_transformed_data_is_identity', ctx.cond(np.allclose(inn, np.eye(T.shape[1]), atol=1e-6)))
+      if reduced:
+        # the retained directions maximise total-to-within-chunk variance: row space of components_ = span of the generalised eigenvectors
+        # of (within, total) with the smallest within/total ratio (independent oracle: symmetric generalised eigenproblem)
+        import scipy.linalg as sla
+        Xf = np.asarray(X, float)
+        inner_f = np.array([[float(inner[a][b]) for b in range(d)] for a in range(d)])
+        total_f = np.cov(Xf[members], rowvar=False)
+        wv, U = sla.eigh(inner_f, total_f)
+        kdim = est.components_.shape[0]
+        if wv[kdim] - wv[kdim - 1] > 1e-6 * max(1.0, abs(wv[-1])):     # (the subspace is well defined only with a spectral gap)
+          Uk = U[:, :kdim]
+          Pref = Uk @ np.linalg.pinv(Uk)
+          Lc = np.asarray(est.components_, float)
+          Pgot = Lc.T @ np.linalg.pinv(Lc.T)
+          ctx.require('retained_directions_maximise_total_to_within_chunk_variance', ctx.cond(np.allclose(Pref, Pgot, atol=1e-6)))
   return fn
 
 
@@ -382,7 +400,7 @@ def cases(tier, seed):
                     tiers=tiers, cost=10, validate=4))
   out.append(case('rca_kept_direction', rca_direction_case(), FUNCS, 'fixed data, arbitrary spectrum returned by eig: which direction is kept', cost=3, validate=0))
   for labels, d, k in (((0, 0, 0, 0, 1, 1, 1), 2, 1), ((0, 1, 2, 0, 1, 2, 0, 1, 2, 0), 3, 2), ((0, 0, 0, 1, 1, 1), 2, 1), ((0, 1, 0, 1, 0), 2, 1),
-                       ((0, 0, 0, 0, 0, 1, 1), 4, 3), ((0, 1, 0, 0, 2, 0, 1, 2, 1, 0), 3, 2)):   # unbalanced: a small class after a larger one (per-class clamp of k)
+                       ((0, 0, 0, 0, 0, 1, 1), 4, 3), ((0, 1, 0, 0, 2, 0, 1, 2, 1, 0), 3, 2), ((0, 0, 0, 1, 1, 1, 2), 2, 1), ((0, 1, 1, 2, 2, 2, 2), 3, 1)):   # unbalanced: a small class after a larger one (per-class clamp of k)
     out.append(case('lfda_sampled_%s_d%d_k%d' % (''.join(map(str, labels)), d, k), lfda_case(labels, d, k, 'weighted'), FUNCS,
                     'labels %s, 8 random data sets in R^%d, k=%d: scatter matrices handed to the eigen-solver vs the documented definition (sampled, not solver-decided)' % (list(labels), d, k),
                     concrete_only=True, validate=8, cost=2))
